@@ -130,11 +130,18 @@ type ATSet struct {
 	E    *ATExpr
 }
 
+// ATUpAssign is one assignment of ON DUPLICATE KEY UPDATE: col = VALUES(col) (Lit == nil) or col = <literal>
+type ATUpAssign struct {
+	Col int
+	Lit *ATVal
+}
+
 type ATStmt struct {
-	Kind  byte // U D X
-	Sets  []ATSet
-	Where *ATCond
-	Rows  [][]*ATExpr
+	Kind   byte // U D X Y(upsert)
+	Assign []ATUpAssign
+	Sets   []ATSet
+	Where  *ATCond
+	Rows   [][]*ATExpr
 	// classes of known findings this statement falls in (class predicates)
 	Classes []string
 	// ForceFail: the database is made to fail the business statement (injected error)
@@ -146,7 +153,7 @@ func (s *ATStmt) Arm(e *memdb.Engine, table string) func() {
 	if !s.ForceFail {
 		return func() {}
 	}
-	kind := map[byte]string{'U': "update", 'D': "delete", 'X': "insert"}[s.Kind]
+	kind := map[byte]string{'U': "update", 'D': "delete", 'X': "insert", 'Y': "insert"}[s.Kind]
 	e.AddFault(memdb.Fault{Kind: kind, Table: table, Nth: 1})
 	return e.ClearFaults
 }
@@ -259,13 +266,13 @@ func (s *ATStmt) Render(sc *ATSchema) (string, []interface{}, string) {
 			o.sb.WriteString(" WHERE ")
 		}
 		o.cond(sc, s.Where)
-	case 'X':
+	case 'X', 'Y':
 		names := make([]string, len(sc.Cols))
 		for i, c := range sc.Cols {
 			names[i] = c.Name
 		}
 		o.sb.WriteString("INSERT INTO " + sc.Table + " (" + strings.Join(names, ", ") + ") VALUES ")
-		fmt.Fprintf(&o.tok, "X%d:%d:", len(s.Rows), len(sc.Cols))
+		fmt.Fprintf(&o.tok, "%c%d:%d:", s.Kind, len(s.Rows), len(sc.Cols))
 		for i, row := range s.Rows {
 			if i > 0 {
 				o.sb.WriteString(", ")
@@ -278,6 +285,23 @@ func (s *ATStmt) Render(sc *ATSchema) (string, []interface{}, string) {
 				o.expr(sc, e)
 			}
 			o.sb.WriteString(")")
+		}
+		if s.Kind == 'Y' {
+			o.sb.WriteString(" ON DUPLICATE KEY UPDATE ")
+			fmt.Fprintf(&o.tok, "A%d:", len(s.Assign))
+			for i, a := range s.Assign {
+				if i > 0 {
+					o.sb.WriteString(", ")
+				}
+				n := sc.Cols[a.Col].Name
+				if a.Lit == nil {
+					o.sb.WriteString(n + " = VALUES(" + n + ")")
+					fmt.Fprintf(&o.tok, "%d:V", a.Col)
+				} else {
+					o.sb.WriteString(n + " = " + a.Lit.SQL())
+					fmt.Fprintf(&o.tok, "%d:l%s", a.Col, a.Lit.Tok())
+				}
+			}
 		}
 	}
 	fmt.Fprintf(&o.tok, "G%d:", len(o.args))
@@ -300,10 +324,12 @@ type ATGenOpts struct {
 	AllowFindings   bool // also generate statement shapes that are known findings (class-tagged)
 	NullableVals    bool
 	StrPK           bool
-	PKUpdates       bool // UPDATE statements that name a primary-key column
-	ContinueOnError bool // explicit transactions may ignore a failing INSERT and commit
-	BigInts         bool // integer columns cluster at one large magnitude
-	CollideKeys     bool // composite integer keys whose parts concatenate to the same text: (1,10)/(11,0), (1,11)/(11,1)
+	PKUpdates       bool      // UPDATE statements that name a primary-key column
+	Upserts         bool      // INSERT … ON DUPLICATE KEY UPDATE statements
+	Existing        [][]ATVal // the initial rows (for statements aimed at existing keys)
+	ContinueOnError bool      // explicit transactions may ignore a failing INSERT and commit
+	BigInts         bool      // integer columns cluster at one large magnitude
+	CollideKeys     bool      // composite integer keys whose parts concatenate to the same text: (1,10)/(11,0), (1,11)/(11,1)
 }
 
 func genSchema(r *Rng, table string, o ATGenOpts) *ATSchema {
@@ -638,7 +664,69 @@ func genInsert(r *Rng, sc *ATSchema, taken map[string]bool, o ATGenOpts) *ATStmt
 	return st
 }
 
+// genUpsert: INSERT … ON DUPLICATE KEY UPDATE over 1-3 rows whose keys are new, existing, or a mix
+// (the mix is an open known finding: one UPDATE item for the whole batch)
+func genUpsert(r *Rng, sc *ATSchema, existing [][]ATVal, taken map[string]bool) *ATStmt {
+	st := genInsert(r, sc, taken, ATGenOpts{})
+	st.Kind = 'Y'
+	nNew, nOld := 0, 0
+	for ri := range st.Rows {
+		if len(existing) > 0 && r.Chance(50) {
+			src := existing[r.Intn(len(existing))]
+			for _, p := range sc.PK {
+				st.Rows[ri][p] = &ATExpr{K: st.Rows[ri][p].K, Val: src[p]}
+				if st.Rows[ri][p].K == 'c' {
+					st.Rows[ri][p].K = 'l'
+				}
+			}
+			nOld++
+		} else {
+			nNew++
+		}
+	}
+	// two rows of one statement must not carry the same key (the second would update the first)
+	seen := map[string]bool{}
+	var rows [][]*ATExpr
+	for _, row := range st.Rows {
+		k := ""
+		for _, p := range sc.PK {
+			k += row[p].Val.Cell() + "/"
+		}
+		if !seen[k] {
+			seen[k] = true
+			rows = append(rows, row)
+		}
+	}
+	st.Rows = rows
+	for ci := range sc.Cols {
+		if sc.isPK(ci) || !r.Chance(70) {
+			continue
+		}
+		if r.Bool() {
+			st.Assign = append(st.Assign, ATUpAssign{Col: ci})
+		} else {
+			v := genVal(r, sc.Cols[ci])
+			st.Assign = append(st.Assign, ATUpAssign{Col: ci, Lit: &v})
+		}
+	}
+	if len(st.Assign) == 0 {
+		for ci := range sc.Cols {
+			if !sc.isPK(ci) {
+				st.Assign = append(st.Assign, ATUpAssign{Col: ci})
+				break
+			}
+		}
+	}
+	if nNew > 0 && nOld > 0 {
+		st.Classes = append(st.Classes, "upsert_mixed_batch")
+	}
+	return st
+}
+
 func genStmt(r *Rng, sc *ATSchema, taken map[string]bool, o ATGenOpts) *ATStmt {
+	if o.Upserts && r.Chance(20) {
+		return genUpsert(r, sc, o.Existing, taken)
+	}
 	switch r.Intn(10) {
 	case 0, 1, 2, 3:
 		return genUpdate(r, sc, o)
